@@ -249,9 +249,29 @@ def main(run):
     ]
     run.assumptions += ["fitness values finite (no NaN/inf), all individuals have the same number of objectives",
                         "individuals are distinct objects with distinct fitness objects", "k >= 0, population non-empty"]
-    run.build_props()
-    # ---- tie (T): regenerate Gen/C05_gen.v from the working tree, re-prove `regenerated refines model` and the theorems
-    gen_check = tie_T(run)
+    # ---- tie (T): regenerate Gen/C05_gen.v from the working tree, re-prove `regenerated refines model` and the theorems.
+    # The two builds (coqc: ~20 s each, mostly Print Assumptions) run while the cases are generated; both are joined
+    # before the correspondence.
+    import threading
+    tie_box = {}
+
+    def props_thread():
+        try:
+            run.build_props()
+        except BaseException as e:  # noqa  (re-raised in the main thread)
+            tie_box["error"] = e
+
+    def tie_thread():
+        try:
+            tie_box["check"] = tie_T(run)
+        except BaseException as e:  # noqa  (re-raised in the main thread)
+            tie_box["error"] = e
+    props_th = threading.Thread(target=props_thread, name="C05-props")
+    props_th.start()
+    tie_th = threading.Thread(target=tie_thread, name="C05-tie-T")
+    tie_th.start()
+    import time as _t
+    t_gen0 = _t.time()
     rng = run.rng
 
     import array
@@ -496,9 +516,9 @@ def main(run):
         fu = clist([cnatl(f) for f in fronts_uid])
         stale = any(x is not None for x in pre_cd)
         popf = clist(["(%s, %s)" % (czl(img[j]), cfl(obs_vals[j])) for j in range(n)])
-        # every selNSGA2 call goes through the hand model; every second one (and every call on objects that carry
+        # every selNSGA2 call goes through the hand model; every third one (and every call on objects that carry
         # attributes from earlier calls) also through the regenerated definitions
-        use_gen = stale or stats["sel_calls"] % 2 == 0
+        use_gen = stale or stats["sel_calls"] % 3 == 0
         add("CSelF %s %s %s %s %s %s %s" % (cbool(nd == "standard"), cnat(k), popf, fu, cnatl(sel_uid),
                                             clist([copt(x, cfloat) for x in pre_cd]) if stale else "[]",
                                             clist([copt(x, cfloat) for x in cd])), case, gen=use_gen)
@@ -817,26 +837,35 @@ def main(run):
         crowd_case(rand_weights(nobj), vals)
 
     run.extra_cov["c05_stats"] = stats
+    timing = {"generation_s": round(_t.time() - t_gen0, 1)}
+    run.extra_cov["c05_timing"] = timing
+    props_th.join()
+    tie_th.join()
+    timing["tie_join_wait_s"] = round(_t.time() - t_gen0 - timing["generation_s"], 1)
+    if "error" in tie_box:
+        raise tie_box["error"]
+    gen_check = tie_box["check"]
     # the model and (when they are provably the model) the regenerated definitions are evaluated on every case
     reqs = ["From DV Require Import Gen.C05_gen."] if gen_check != "check" else []
     n_dis = len(run.disagreements)
+    import time as _time
+    t_corr = _time.time()
     if gen_check == "check_both":
-        gi = [i for i in range(len(terms)) if with_gen[i]]
-        pi = [i for i in range(len(terms)) if not with_gen[i]]
-        run.extra_cov["terms_also_through_regenerated_definitions"] = len(gi)
-        correspond_robust(run, [terms[i] for i in gi], [cases[i] for i in gi], shard=run.scale(150, 400), check=gen_check,
-                          requires=reqs, prefix="both")
-        correspond_robust(run, [terms[i] for i in pi], [cases[i] for i in pi], shard=run.scale(150, 400), prefix="model")
+        # one pass; per term: the hand model, or the hand model and the regenerated definitions
+        run.extra_cov["terms_also_through_regenerated_definitions"] = sum(1 for g in with_gen if g)
+        correspond_robust(run, ["(%s, %s)" % (cbool(g), x) for g, x in zip(with_gen, terms)], cases, shard=run.scale(150, 400),
+                          check="(fun p : bool * case => if fst p then check_both (snd p) else check (snd p))", requires=reqs)
     else:
         correspond_robust(run, terms, cases, shard=run.scale(150, 400))
+    timing["correspondence_s"] = round(_time.time() - t_corr, 1)
     new_dis = [d for d in run.disagreements[n_dis:] if d.get("index") is not None]
     if gen_check == "check_both" and new_dis:
         # which of the two disagrees with the implementation?
         traces = run.traces
         try:
-            sub_t = [d["term"] for d in new_dis if len(d["term"]) < 4000][:200]
-            bad_model = run.correspond("diagnosis_model", "C05", sub_t, None, check="check")
-            bad_gen = run.correspond("diagnosis_regenerated", "C05", sub_t, None, check="check_gen", requires=reqs)
+            sub_t = [d["term"] for d in new_dis if len(d["term"]) < 3990][:200]
+            bad_model = run.correspond("diagnosis_model", "C05", sub_t, None, check="(fun p : bool * case => check (snd p))")
+            bad_gen = run.correspond("diagnosis_regenerated", "C05", sub_t, None, check="(fun p : bool * case => check_gen (snd p))", requires=reqs)
             run.notes.append("diagnosis: of %d disagreeing cases the hand model disagrees on %d, the regenerated definitions on %d"
                              % (len(sub_t), len(bad_model), len(bad_gen)))
         except Exception as e:  # noqa
